@@ -24,8 +24,12 @@ class IOpenQLCircuitFactory(IFactoryManager[Type[ICircuitOperation]], metaclass=
 
     # region Interface Methods
     @abstractmethod
-    def construct(self, circuit: Union[IDeclarativeCircuit, ICircuitCompositeOperation], circuit_id: Optional[str] = None) -> ql.Program:
-        """:return: OpenQL circuit based on operation type."""
+    def construct(self, circuit: Union[IDeclarativeCircuit, ICircuitCompositeOperation], circuit_id: Optional[str] = None, kernel_id: Optional[str] = None) -> ql.Program:
+        """
+        :param circuit_id: (Optional) program name, replaces the generated one.
+        :param kernel_id: (Optional) kernel name, replaces the generated one. Used to keep kernel names of nested sub-circuits unique.
+        :return: OpenQL circuit based on operation type.
+        """
         raise InterfaceMethodException
     # endregion
 
@@ -59,8 +63,12 @@ class OpenQLCircuitFactoryManager(IOpenQLCircuitFactory):
     # endregion
 
     # region Interface Methods
-    def construct(self, circuit: Union[IDeclarativeCircuit, ICircuitCompositeOperation], circuit_id: Optional[str] = None) -> ql.Program:
-        """:return: OpenQL circuit based on operation type."""
+    def construct(self, circuit: Union[IDeclarativeCircuit, ICircuitCompositeOperation], circuit_id: Optional[str] = None, kernel_id: Optional[str] = None) -> ql.Program:
+        """
+        :param circuit_id: (Optional) program name, replaces the generated one.
+        :param kernel_id: (Optional) kernel name, replaces the generated one. Used to keep kernel names of nested sub-circuits unique.
+        :return: OpenQL circuit based on operation type.
+        """
 
         process_circuit: ICircuitCompositeOperation = circuit
         if isinstance(circuit, IDeclarativeCircuit):
@@ -72,30 +80,43 @@ class OpenQLCircuitFactoryManager(IOpenQLCircuitFactory):
         kernel_uuid: str = f"kernel_{circuit_uuid[:8]}"
         if circuit_id is not None:
             program_uuid = circuit_id
+        if kernel_id is not None:
+            kernel_uuid = kernel_id
         sub_program_uuid: str = f"sub_{program_uuid}"
 
         result_program: ql.Program = PlatformManager.construct_program(name=program_uuid)
         kernel: ql.Kernel = PlatformManager.construct_kernel(name=kernel_uuid)
+        # Kernels and sub-programs are added in listing order, each under a name that is unique within the program
+        segment_index: int = 0
+        kernel_extended: bool = False
 
         for operation_node in process_circuit._circuit_graph.get_node_iterator():
             operation: ICircuitOperation = operation_node.operation
 
             # Recursion, if operation is a composite operation
             if isinstance(operation, ICircuitCompositeOperation):
-                inner_program: ql.Program = self.construct(operation, circuit_id=sub_program_uuid)
-                # TODO: deal with repetitions
+                # Operations collected so far precede the sub-circuit
+                if kernel_extended:
+                    result_program.add_kernel(kernel)
+                    segment_index += 1
+                    kernel = PlatformManager.construct_kernel(name=f"{kernel_uuid}_{segment_index}")
+                    kernel_extended = False
                 for i in range(operation.nr_of_repetitions):
+                    segment_index += 1
+                    inner_program: ql.Program = self.construct(operation, circuit_id=f"{sub_program_uuid}_{segment_index}", kernel_id=f"{kernel_uuid}_{segment_index}")
                     result_program.add_program(inner_program)
 
             # Guard clause, if request not supported raise exception
             operation_supported: bool = self.contains(factory_key=type(operation))
             if not operation_supported:
                 continue  # TODO: Maybe provide warning for skipped operation.
-            
+
             # Extend kernel
             kernel = self.factory_lookup[type(operation)].construct(operation, kernel)
+            kernel_extended = True
 
-        result_program.add_kernel(kernel)
+        if kernel_extended or segment_index == 0:
+            result_program.add_kernel(kernel)
         return result_program
 
     def contains(self, factory_key: Type[ICircuitOperation]) -> bool:
